@@ -92,6 +92,15 @@ class Judge(object):
             return bool(e.values) and isinstance(e.values[0], ast.Constant) and literal_is_comment(e.values[0].value)
         return False
 
+    USER_TEXT_ATTRS = {"decl", "doxygen", "description", "brief", "splicer", "cxx_template", "C_code", "F_code"}
+
+    def has_user_text(self, e):
+        """an interpolated field that is raw user text (may contain a newline: the rest would not be a comment)"""
+        for x in ast.walk(e):
+            if isinstance(x, ast.Attribute) and x.attr in self.USER_TEXT_ATTRS and isinstance(x.ctx, ast.Load):
+                return ast.unparse(x)
+        return None
+
     def leftmost(self, e):
         while isinstance(e, ast.BinOp) and isinstance(e.op, ast.Add):
             e = e.left
@@ -118,6 +127,9 @@ class Judge(object):
             fn = c.func
             name = fn.id if isinstance(fn, ast.Name) else fn.attr
             if name == "append" and len(c.args) == 1:
+                ut = self.has_user_text(c.args[0])
+                if ut:
+                    return False, "comment line interpolates raw user text %s (a second line of it would be emitted as code)" % ut
                 if self.comment_expr(c.args[0], locals_ok):
                     return True, ""
                 return False, "appends a line that is not certainly a comment: %s" % ast.unparse(c.args[0])[:80]
@@ -175,6 +187,11 @@ class Judge(object):
                             self.items.append(("C16/util.py:write_doxygen:%d:docs[%s]-single-line" % (n.lineno, key), False,
                                                "user text docs[%r] is interpolated into ONE comment line: a second line of the "
                                                "text is emitted without the comment prefix" % key))
+            for n in ast.walk(func):
+                if isinstance(n, ast.Assign) and isinstance(n.value, ast.List) and len(n.value.elts) == 1 \
+                        and isinstance(n.value.elts[0], ast.Name) and n.value.elts[0].id in ("desc", "brief", "text"):
+                    self.items.append(("C16/util.py:write_doxygen:%d:%s-not-split" % (n.lineno, n.value.elts[0].id), False,
+                                       "user text is used as ONE line without splitting at newlines: %s" % ast.unparse(n)))
         return self.items
 
     def run(self):
@@ -252,7 +269,7 @@ class Judge(object):
         # collect tainted locals: x = <option read> / x = True|False under an option test
         for n in ast.walk(func):
             if isinstance(n, ast.Assign) and len(n.targets) == 1 and isinstance(n.targets[0], ast.Name):
-                if self.is_opt_read(n.value):
+                if any(self.is_opt_read(x) for x in ast.walk(n.value)):
                     tainted.add(n.targets[0].id)
         changed = True
         while changed:
@@ -288,7 +305,8 @@ class Judge(object):
             if isinstance(in_test, tuple):
                 st = in_test[0]
                 # allowed: x = <option read> (taint), or use of tainted local as argument of a comment append / format
-                if isinstance(st, ast.Assign) and len(st.targets) == 1 and isinstance(st.targets[0], ast.Name) and st.value is r:
+                if isinstance(st, ast.Assign) and len(st.targets) == 1 and isinstance(st.targets[0], ast.Name) \
+                        and (st.value is r or isinstance(st.value, (ast.BoolOp, ast.UnaryOp, ast.Compare))):
                     self.items.append((ident, True, "initialises the local flag %s" % st.targets[0].id))
                     continue
                 if isinstance(st, ast.If):
